@@ -199,19 +199,47 @@ Apply(s, e) ==
     [] OTHER -> Fail(s, "unknown")
 
 -----------------------------------------------------------------------------
-(* Ghosts (only for coverage counters; no clause depends on them):
+(* Ghosts.  Coverage counters (no clause depends on them):
    burned = tokens <<c, id>> burned at least once, handed = classes that were
    handed over, exOwner = <<c, id, a>>: a owned token (c, id) before (it was
    transferred away or burned), exCreator = <<c, a>>: a was the creator of c
-   before.  Computed from the observed (s, e, t) only. *)
-GhostInit == [burned |-> {}, handed |-> {}, exOwner |-> {}, exCreator |-> {}]
+   before.  Computed from the observed (s, e, t) only.
 
+   The HISTORY's ledger (audit after round 7; read by the C14_Hist* clauses):
+   what the accepted messages say, never what the store says.
+     own[<<c, id>>]  the owner the accepted messages gave token (c, id): the
+                     recipient of its last accepted mint / transfer; gone
+                     after an accepted burn
+     hcls[c]         [creator, mintR, updateR] of class c: the sender and the
+                     flags of the accepted issue, the creator replaced by the
+                     recipient of every accepted handover
+   Both start from the state a history starts in (GhostOf) - a genesis state
+   may hold classes and tokens - and are advanced from the EVENT alone. *)
 AllTokens(t) == UNION {{<<c, i>> : i \in DOMAIN t.nft[c]} : c \in DOMAIN t.nft}
+
+GhostOf(t) ==
+  [burned |-> {}, handed |-> {}, exOwner |-> {}, exCreator |-> {},
+   own |-> [x \in AllTokens(t) |-> t.nft[x[1]][x[2]].owner],
+   hcls |-> [c \in DOMAIN t.cls |->
+               [creator |-> t.cls[c].creator, mintR |-> t.cls[c].mintR, updateR |-> t.cls[c].updateR]]]
+
+HistOwn(own, e) ==
+  IF ~e.ok THEN own
+  ELSE IF e.name \in {"MintNFT", "TransferNFT"} THEN Put(own, <<e.cls, e.id>>, e.to)
+  ELSE IF e.name = "BurnNFT" THEN Del(own, <<e.cls, e.id>>)
+  ELSE own
+HistCls(hcls, e) ==
+  IF ~e.ok THEN hcls
+  ELSE IF e.name = "IssueDenom"
+    THEN Put(hcls, e.cls, [creator |-> e.who, mintR |-> e.mintR, updateR |-> e.updateR])
+  ELSE IF e.name = "TransferDenom" /\ e.cls \in DOMAIN hcls THEN [hcls EXCEPT ![e.cls].creator = e.to]
+  ELSE hcls
 
 GhostStep(g, s, e, t) ==
   [burned |-> g.burned \cup (AllTokens(s) \ AllTokens(t)),
    handed |-> g.handed \cup {c \in DOMAIN s.cls : c \in DOMAIN t.cls /\ t.cls[c].creator # s.cls[c].creator},
-   exOwner |-> g.exOwner, exCreator |-> g.exCreator]
+   exOwner |-> g.exOwner, exCreator |-> g.exCreator,
+   own |-> HistOwn(g.own, e), hcls |-> HistCls(g.hcls, e)]
 (* coverage ghosts, maintained by the trace specification only *)
 CovStep(g, s, e, t) ==
   [GhostStep(g, s, e, t) EXCEPT
@@ -311,6 +339,62 @@ C14_Supply(t) ==
     /\ t.sup[c] = Cardinality(DOMAIN t.coll[c])
     /\ t.sup[c] = SumOver([a \in UsersOf(t) |-> Cardinality(t.idx[a][c])], UsersOf(t))
     /\ t.sup[c] = SumOver([a \in UsersOf(t) |-> t.bal[a][c]], UsersOf(t))
+
+(***************************************************************************)
+(* The same statements judged from the HISTORY (audit after round 7).  The  *)
+(* clauses above read their antecedents and expected values from the        *)
+(* module's own records: "the current owner" is the owner key, "a mint-     *)
+(* restricted class" is the stored flag, "its creator" the stored creator.  *)
+(* A defect that writes one of these wrongly (a flag that is never stored,  *)
+(* a transfer that records somebody else, a burn that removes nothing)      *)
+(* makes them vacuous or equally wrong on both sides.  The twins below take *)
+(* the same antecedents and expected values from the ledger of the accepted *)
+(* messages (ghosts own, hcls): g = the ledger BEFORE the event in          *)
+(* C14_HistAct / C14_HistRestricted, the ledger AFTER it in C14_HistOwner / *)
+(* C14_HistSupply.                                                          *)
+(***************************************************************************)
+HistTokensOf(g, c) == {x \in DOMAIN g.own : x[1] = c}
+
+(* Every token the accepted messages created and did not burn exists, nothing
+   else does, and its one owner is the account the accepted messages gave it
+   to; the classes are the issued ones and a class is in the hands the accepted
+   messages put it in *)
+C14_HistOwner(t, g) ==
+  /\ AllTokens(t) = DOMAIN g.own
+  /\ \A x \in DOMAIN g.own : HasNFT(t, x[1], x[2]) => t.nft[x[1]][x[2]].owner = g.own[x]
+  /\ DOMAIN t.cls = DOMAIN g.hcls
+  /\ \A c \in DOMAIN g.hcls : HasClass(t, c) => t.cls[c].creator = g.hcls[c].creator
+
+(* An accepted transfer / edit / burn comes from the account the history made
+   the owner; an accepted mint names an issued class and a token that does not
+   exist (no reuse while it exists) and, when the class was ISSUED mint-
+   restricted, comes from the account the history made its creator; an accepted
+   handover comes from that account; an accepted issue names a new class id *)
+C14_HistAct(e, g) ==
+  /\ (e.name \in TokenOps /\ e.ok) =>
+       <<e.cls, e.id>> \in DOMAIN g.own /\ g.own[<<e.cls, e.id>>] = e.who
+  /\ (e.name = "MintNFT" /\ e.ok) =>
+       /\ e.cls \in DOMAIN g.hcls /\ <<e.cls, e.id>> \notin DOMAIN g.own
+       /\ g.hcls[e.cls].mintR => e.who = g.hcls[e.cls].creator
+  /\ (e.name = "TransferDenom" /\ e.ok) =>
+       e.cls \in DOMAIN g.hcls /\ g.hcls[e.cls].creator = e.who
+  /\ (e.name = "IssueDenom" /\ e.ok) => e.cls \notin DOMAIN g.hcls
+
+(* Tokens of a class that was ISSUED update-restricted never change their
+   metadata *)
+C14_HistRestricted(s, t, g) ==
+  \A c \in DOMAIN g.hcls : (g.hcls[c].updateR /\ c \in DOMAIN s.nft) =>
+    \A i \in DOMAIN s.nft[c] : HasNFT(t, c, i) => Meta(t.nft[c][i]) = Meta(s.nft[c][i])
+
+(* The reported supply of a class = the number of tokens the accepted messages
+   minted into it and did not burn = the sum of all owners' reported balances *)
+C14_HistSupply(t, g) ==
+  \A c \in DOMAIN g.hcls :
+    LET n == Cardinality(HistTokensOf(g, c)) IN
+    /\ c \in DOMAIN t.sup /\ t.sup[c] = n
+    /\ \A a \in UsersOf(t) : c \in DOMAIN t.bal[a]
+    /\ (\A a \in UsersOf(t) : c \in DOMAIN t.bal[a]) =>
+         SumOver([a \in UsersOf(t) |-> t.bal[a][c]], UsersOf(t)) = n
 
 (***************************************************************************)
 (* The same statements on the RAW STORE (round 7).  The harness scans the   *)
@@ -414,7 +498,7 @@ InitPre ==
            !.sup = (PreClass :> 1)])
 Init0 == IF PreClass \in Classes THEN InitPre ELSE InitEmpty
 
-Init == st = Init0 /\ ev = NoEv /\ gh = GhostInit /\ hist = <<>>
+Init == st = Init0 /\ ev = NoEv /\ gh = GhostOf(Init0) /\ hist = <<>>
 
 E(name, who, c, id, to, mintR, updateR, cmeta, n, u, h, d) ==
   [name |-> name, who |-> who, cls |-> c, id |-> id, to |-> to,
@@ -507,6 +591,10 @@ Act_C14_UpdateRestricted == [][C14_UpdateRestricted(st, ev', st')]_vars
 Act_C14_ClassHandover == [][C14_ClassHandover(st, ev', st')]_vars
 Act_C14_Ids == [][C14_Ids(st, ev', st')]_vars
 Act_Rejected_NoEffect == [][Rejected_NoEffect(st, ev', st')]_vars
+Inv_C14_HistOwner == C14_HistOwner(st, gh)
+Inv_C14_HistSupply == C14_HistSupply(st, gh)
+Act_C14_HistAct == [][C14_HistAct(ev', gh)]_vars
+Act_C14_HistRestricted == [][C14_HistRestricted(st, st', gh)]_vars
 Act_X14_Recipient == [][X14_Recipient(st, ev', st')]_vars
 Act_X14_Fidelity == [][X14_Fidelity(st, ev', st')]_vars
 
